@@ -70,10 +70,22 @@ Readings (the weaker one is used where two exist):
   container's cached selectable() differs from the fresh twin's (the property does not say when a change
   further down propagates), a twin that raises.  What a key does to the focus afterwards (pref_col, scroll
   position are legitimate hidden state) is not compared.
+* "after ANY history of keypresses ... focus assignments and content edits": an edit need not happen between two
+  keys.  Applications edit their containers from inside keypress() - a Button's click callback runs inside the
+  keypress() of every container on the focus path (urwid's tutorial: HorizontalBoxes.open_box deletes and appends
+  columns and assigns focus_position from there), an Edit subclass reacts to the key that leaves it.  So a
+  selectable leaf may be *reactive*: the first time(s) it is offered one of its trigger keys its keypress() applies
+  focus assignments / contents edits to containers of the tree (the same ops, through the same interpreter and
+  model) and then returns the key handled or unhandled.  All clauses stay as they are; "arrow keys move focus only
+  onto selectable children" is then judged on what the containers did AFTER the leaf gave the key back (the focus
+  of every Pile / Columns / GridFlow is recorded when the reaction has finished), since the leaf's own focus
+  assignment may put the focus anywhere.  Twins are built with passive probes (the twin is compared in what it is
+  offered, not in what its leaves do).
 """
 from __future__ import annotations
 
 import functools
+import json as _json
 import warnings
 
 from hypothesis import strategies as st
@@ -104,6 +116,17 @@ RULE = (
     "container of the tree; before every key a twin of the tree is constructed afresh from its public state and "
     "must be drawn with focus on, and offer the key to, the same probes (history independence). Non-trivial: >=2 container levels in the initial tree and a contents mutation op "
     "followed later by a key op. "
+    "Re-entrancy: one generated selectable leaf in five is reactive - on 1..3 trigger keys (mostly arrows), the first "
+    "1..2 times it is offered one, its keypress() applies 1..2 ops (focus_position = p, set_focus_path, insert, del, "
+    "slice / whole assignment, clear, extended slices, append/extend/+=, remove/pop, reverse/*=, Frame part replace/"
+    "remove) to containers of the tree and returns the key handled or unhandled; every clause is asserted as usual, the "
+    "arrow clause on the focus moves made after the leaf returned. "
+    "Sweep 6 (re-entrant edit): Pile, Columns, GridFlow, ListBox over both walkers x 2..3 (thorough 2..4) leaves x "
+    "every selectable/unselectable pattern with a selectable focus leaf x every focus position x every single edit of "
+    "the container made by the focus leaf from inside keypress() (delete child j; replace child j by / insert at j a "
+    "selectable or unselectable leaf; focus := j; clear; whole contents := 1 or 2 leaves by slice and by attribute; "
+    "reverse) x trigger key (both arrow keys of the axis, a character) x key handled / unhandled by the leaf; then a "
+    "character (thorough: also with the container as focus child of a Pile, the edit addressed to either). "
     "Plus a deterministic sweep through the same interpreter: every list-like container kind (Pile, Columns, "
     "GridFlow, ListBox over SimpleListWalker / SimpleFocusListWalker) x 1..4 children (thorough 1..6) x every "
     "focus position x every slice spelling (start, stop in {None} + [-(n+1), n+1], step in {None, +-1, +-2, +-3}) "
@@ -152,6 +175,9 @@ ASSUMPTIONS = [
     "Python's own list semantics for slices (the model is a plain list edited with the same slice object) are the "
     "reference for which children an edit removes / replaces; which child gets the focus afterwards is not asserted, "
     "only that it is a valid one",
+    "a reactive probe is a correct application widget: editing contents / assigning focus_position from inside "
+    "keypress() is what Button callbacks do (urwid tutorial, HorizontalBoxes.open_box); it never feeds input back in, "
+    "never renders, and reports the key as its 'keys' set says",
     "a child object occurs once in a tree (no `contents *= 2`, no widget inserted twice): the model finds children by identity",
     "Padding, AttrMap, Filler and BoxAdapter pass selectable(), keypress, mouse_event and render(focus) through to the "
     "one widget they decorate (they are leaves' clothing here, not subjects of this property)",
@@ -225,9 +251,12 @@ SIZING_WARNINGS = (WidgetWarning,)
 class Probe(urwid.Widget):
     """Leaf widget: paints its glyph, logs keypress / mouse_event / render(focus)."""
 
-    def __init__(self, pid, flow, sel, keys, rows, log):
+    def __init__(self, pid, flow, sel, keys, rows, log, hook=None, react_on=()):
         super().__init__()
         self.pid = pid
+        self.hook = hook  # Harness.react for a leaf whose keypress() edits the tree, else None (twins: always None)
+        self.react_on = frozenset(react_on) if (sel and hook is not None) else frozenset()
+        self.reacted = 0
         self._sizing = frozenset([urwid.FLOW]) if flow else frozenset([urwid.BOX])
         self._selectable = bool(sel)
         self.keys = frozenset(keys) if sel else frozenset()
@@ -247,6 +276,10 @@ class Probe(urwid.Widget):
     def keypress(self, size, key):
         handled = key in self.keys
         self.log.append(("key", self.pid, key, handled))
+        if key in self.react_on:
+            # an application widget: its keypress() changes the user interface it sits in (what a Button's click
+            # callback or an Edit subclass does), then reports the key handled or not
+            self.hook(self, key)
         return None if handled else key
 
     def mouse_event(self, size, event, button, col, row, focus):
@@ -283,6 +316,12 @@ class CursorProbe(Probe):
 
 
 DECOS = ("pad", "attr", "adapt")
+REENTRANT_MARK = " [after the focus leaf edited the tree from inside this keypress()]"
+# what a leaf's keypress() may do to the tree it sits in: focus assignments and contents edits (the same ops a
+# history is made of, interpreted by the same methods of the harness), nothing that feeds input back in
+REACT_KINDS = frozenset(
+    ["focus", "path", "ins", "del", "slice", "setall", "clear", "xslice", "add", "rem", "whole", "part"]
+)
 
 
 def leaf_spec(spec, pid):
@@ -292,7 +331,11 @@ def leaf_spec(spec, pid):
     for d in spec.get("deco") or []:
         if d in DECOS and d not in deco:
             deco.append(d)
+    react = [list(op) for op in (spec.get("react") or []) if op and op[0] in REACT_KINDS][:3] if sel else []
     return {
+        "react": react,
+        "ron": [k for k in spec.get("ron", []) if k in ALL_KEYS] if react else [],
+        "rn": min(3, max(1, int(spec.get("rn", 1)))),
         "pid": pid,
         "sel": sel,
         "keys": [k for k in spec.get("keys", []) if k in ALL_KEYS],
@@ -303,16 +346,18 @@ def leaf_spec(spec, pid):
     }
 
 
-def make_leaf(ls, mode, log):
+def make_leaf(ls, mode, log, hook=None):
     """The leaf widget for a slot that needs a flow ("F") or box ("B") widget: a probe, optionally inside the
     decoration widgets applications put around their leaves - 'adapt': a probe of the OTHER sizing mode made to
     fit the documented way (Filler around a flow widget, BoxAdapter around a box widget); 'pad': Padding with a
     left margin of 0..2; 'attr': AttrMap with a focus attribute.  A decoration is selectable exactly when the
-    probe inside is; whether it has the optional cursor methods is up to the decoration class."""
+    probe inside is; whether it has the optional cursor methods is up to the decoration class.
+    ``hook``: Harness.react for a reactive leaf (ls["react"] non-empty), None for passive leaves and all twins."""
     adapt = "adapt" in ls["deco"]
     inner_flow = (mode == "F") != adapt
     cls = CursorProbe if ls["cur"] else Probe
-    w = cls(ls["pid"], inner_flow, ls["sel"], ls["keys"], ls["rows"], log)
+    w = cls(ls["pid"], inner_flow, ls["sel"], ls["keys"], ls["rows"], log, hook, ls.get("ron", ()))
+    w.ls = ls
     if adapt:
         w = urwid.Filler(w, "top") if mode == "B" else urwid.BoxAdapter(w, ls["rows"])
     for d in ls["deco"]:
@@ -413,6 +458,8 @@ class Harness:
         self.wlist = []
         self.root = None
         self.drawn_focus = None  # probes drawn with focus=True by the last complete render of the real tree
+        self.key_nodes = []  # the Pile / Columns / GridFlow nodes of the tree when the key now travelling was sent
+        self.reaction_snapshot = None  # [(node, node.w.focus)] taken when the last reaction to that key had finished
         # command maps of this history: [0] is the shared one; model: key -> Command for the keys in ALL_KEYS
         self.maps = [urwid.command_map]
         self.mmodel = [dict(DEFAULT_BINDINGS)]
@@ -422,7 +469,7 @@ class Harness:
         pid = self.npid
         self.npid += 1
         ls = leaf_spec(spec, pid)
-        return Node("p", mode, make_leaf(ls, mode, self.log), None, pid, ls)
+        return Node("p", mode, make_leaf(ls, mode, self.log, self.react if ls["react"] else None), None, pid, ls)
 
     def filler(self, mode):
         return self.new_probe({"k": "p", "sel": 0, "keys": [], "rows": 1}, mode)
@@ -783,7 +830,10 @@ class Harness:
                 # subject, treated like the same error from render() below - out of scope, counted
                 stat(f"out-of-scope:{what}:ListBoxError")
                 raise Discard() from e
-            v = Violation(f"exception:{type(e).__name__}@{urwid_frame(e)}", f"{type(e).__name__}: {e} [via {urwid_chain(e)}]")
+            v = Violation(
+                f"exception:{type(e).__name__}@{urwid_frame(e)}",
+                f"{type(e).__name__}: {e}{self.reentrant_mark(what)} [via {urwid_chain(e)}]",
+            )
             for pred in self.known.values():
                 try:
                     if pred("ops", self.case, v):
@@ -792,6 +842,10 @@ class Harness:
                 except Exception:  # noqa: BLE001
                     continue
             raise
+
+    def reentrant_mark(self, what="keypress"):
+        """message suffix saying that a leaf edited the tree from inside the keypress() call being judged"""
+        return REENTRANT_MARK if (what == "keypress" and self.reaction_snapshot is not None) else ""
 
     def check_warnings(self):
         for wm in self.wlist:
@@ -947,6 +1001,29 @@ class Harness:
         self.render_check()
         self.check_warnings()
 
+    # ---- re-entrancy: a leaf whose keypress() edits the tree ---------------------------------------------
+    def react(self, probe, key):
+        """Called by a reactive probe from inside its keypress() (i.e. from inside the keypress() of every container
+        on the focus path): apply the probe's ops - focus assignments and contents edits, on real tree and model
+        alike, through the same op_* methods a history uses - at most ``rn`` times in a history.  The clauses that
+        hold after any history hold after this one too; what the containers do with the key once the leaf has
+        returned it is judged against the tree as the reaction left it (``reaction_snapshot``)."""
+        ls = probe.ls
+        if probe.reacted >= ls["rn"]:
+            return
+        probe.reacted += 1
+        for op in ls["react"]:
+            if op[0] in REACT_KINDS:
+                getattr(self, "op_" + op[0])(op)
+                self.count(f"react:{op[0]}")
+        seen, nodes = set(), []
+        for n in [*self.key_nodes, *self.containers()]:
+            if n.kind in ("pile", "cols", "grid") and id(n) not in seen:
+                seen.add(id(n))
+                nodes.append(n)
+        self.reaction_snapshot = [(n, n.w.focus) for n in nodes]
+        self.count(f"react:fired:{'handled' if key in probe.keys else 'unhandled'}")
+
     # ---- ops ------------------------------------------------------------------------------
     def pick(self, nodes, i):
         return nodes[int(i) % len(nodes)] if nodes else None
@@ -963,9 +1040,15 @@ class Harness:
         before = [(n, n.w.focus) for n in self.containers() if n.kind in ("pile", "cols", "grid")]
         twin = self.twin_observe(key, positions, path) if self.drawn_focus is not None else None
         del self.log[:]
+        self.key_nodes = [n for n, _f in before]
+        self.reaction_snapshot = None
         ok, r = self.guarded(lambda: root.keypress(self.size(), key), "keypress")
         if not ok:
             return
+        if self.reaction_snapshot is not None:
+            # a leaf edited the tree / moved the focus while it held the key: only what happened after it gave the
+            # key back is the containers' arrow-key handling
+            before = self.reaction_snapshot
         klog = [e for e in self.log if e[0] == "key"]
         got = sorted({e[1] for e in klog})
         if twin is not None:
@@ -1016,7 +1099,7 @@ class Harness:
                     self.report(
                         Violation(
                             "arrow-moves-to-selectable",
-                            f"{n.label()}: {key!r} moved the focus onto an unselectable child {new!r}",
+                            f"{n.label()}: {key!r} moved the focus onto an unselectable child {new!r}{self.reentrant_mark()}",
                         )
                     )
         self.count("key:handled" if handled else ("key:consumed" if r is None else "key:returned"))
@@ -1581,21 +1664,65 @@ SUBS = {"ops": check_ops}
 
 _keys = st.lists(st.sampled_from(ALL_KEYS), max_size=3, unique=True)
 _deco = st.sampled_from([[], [], [], [], ["pad"], ["attr"], ["adapt"], ["pad", "attr"], ["attr", "pad"], ["adapt", "pad"]])
-_probe = st.fixed_dictionaries(
-    {
-        "k": st.just("p"),
-        "sel": st.sampled_from([1, 1, 1, 0]),
-        "keys": _keys,
-        "rows": st.sampled_from([1, 1, 2]),
-        "cur": st.sampled_from([0, 0, 1]),
-        "deco": _deco,
-        "padl": st.integers(0, 2),
-    }
-)
 _w = st.integers(1, 3).map(lambda n: ["w", n])
 _g = st.integers(1, 4).map(lambda n: ["g", n])
 _gw = st.integers(1, 8).map(lambda n: ["g", n])
 _k = st.just(["k"])
+_passive = {
+    "k": st.just("p"),
+    "sel": st.sampled_from([1, 1, 1, 0]),
+    "keys": _keys,
+    "rows": st.sampled_from([1, 1, 2]),
+    "cur": st.sampled_from([0, 0, 1]),
+    "deco": _deco,
+    "padl": st.integers(0, 2),
+}
+
+
+def _react_ops():
+    """what a reactive leaf does to the tree from inside its keypress(): 1..2 focus assignments / contents edits
+    (the children it adds are passive probes)"""
+    ci = st.integers(0, 11)
+    idx = st.integers(0, 23)
+    item = st.fixed_dictionaries(
+        {"o": st.one_of(_w, _w, _g, _k), "box": st.sampled_from([0, 0, 1]), "n": st.fixed_dictionaries(_passive)}
+    )
+    bound = st.one_of(st.none(), st.integers(-5, 5))
+    op = st.one_of(
+        st.tuples(st.just("focus"), ci, st.tuples(st.sampled_from(["v", "v", "i"]), st.integers(0, 5)).map(list)),
+        st.tuples(st.just("path"), st.integers(0, 3), st.lists(st.integers(0, 5), max_size=4), st.integers(0, 4)),
+        st.tuples(st.just("ins"), ci, idx, item),
+        st.tuples(st.just("del"), ci, idx),
+        st.tuples(st.just("del"), ci, idx),
+        st.tuples(st.just("slice"), ci, idx, idx, st.lists(item, max_size=2)),
+        st.tuples(st.just("setall"), ci, st.lists(item, max_size=3), st.integers(0, 1)),
+        st.tuples(st.just("clear"), ci),
+        st.tuples(st.just("xslice"), ci, bound, bound, st.sampled_from([None, 1, 2, -1]), st.integers(0, 1), st.lists(item, max_size=2)),
+        st.tuples(st.just("add"), ci, st.integers(0, 3), idx, st.lists(item, min_size=1, max_size=2)),
+        st.tuples(st.just("rem"), ci, idx, st.integers(0, 1)),
+        st.tuples(st.just("whole"), ci, st.sampled_from([0, 0, 1, 2])),
+        st.tuples(st.just("part"), ci, st.integers(0, 1), st.integers(0, 3), st.one_of(st.none(), st.fixed_dictionaries(_passive))),
+    ).map(list)
+    return st.lists(op, min_size=1, max_size=2)
+
+
+# one selectable leaf in five is an application widget: its keypress() edits the tree it sits in (on up to three
+# keys, mostly arrows, the first one or two times it is offered one of them) and returns the key handled or not
+_probe = st.one_of(
+    st.fixed_dictionaries(_passive),
+    st.fixed_dictionaries(_passive),
+    st.fixed_dictionaries(_passive),
+    st.fixed_dictionaries(_passive),
+    st.fixed_dictionaries(
+        {
+            **_passive,
+            "sel": st.just(1),
+            "react": _react_ops(),
+            "ron": st.lists(st.sampled_from(ALL_KEYS + ["up", "down", "left", "right"] * 2), min_size=1, max_size=3, unique=True),
+            "rn": st.integers(1, 2),
+        }
+    ),
+)
 _focus = st.one_of(st.none(), st.integers(0, 4))
 
 
@@ -1798,6 +1925,8 @@ def classify(case):
     out = [f"root:{case['mode']}:{case['tree'].get('k')}", f"levels:{_levels(case['tree'])}"]
     out += [f"has:{k}" for k in sorted(_kinds(case["tree"], set()))]
     out += [f"op:{k}" for k in sorted({op[0] for op in case["ops"]})]
+    if '"react": [[' in _json.dumps(case):
+        out.append("has:reactive-leaf")
     for op in case["ops"]:
         if op[0] == "focus":
             out.append(f"focus-arg:{op[2][0]}")
@@ -2092,6 +2221,94 @@ def _cell_classify(case):
     return [f"cell:{tree['k']}{slot}>{inner['k']}", f"cell:{'canvas-edge' if edge else 'inside'}"]
 
 
+# ---- sweep 6: the focus leaf edits its container from inside keypress() ------------------------------------------
+
+
+def _reaction_edits(n, c):
+    """every single edit of a list-like container of n children (container index c): delete child j; replace child
+    j by a new selectable / unselectable leaf; insert such a leaf at j; focus := j; clear; set the whole contents to
+    one selectable leaf / to an unselectable and a selectable one (slice and attribute spelling); reverse"""
+
+    def item(sel):
+        return {"o": ["w", 1], "box": 0, "n": {"k": "p", "sel": sel, "keys": ["x"], "rows": 1}}
+
+    for j in range(n):
+        yield ["del", c, j]
+        yield ["focus", c, ["v", j]]
+        for sel in (0, 1):
+            yield ["slice", c, j, j + 1, [item(sel)]]
+    for j in range(n + 1):
+        for sel in (0, 1):
+            yield ["ins", c, j, item(sel)]
+    yield ["clear", c]
+    for how in (0, 1):
+        yield ["setall", c, [item(1)], how]
+        yield ["setall", c, [item(0), item(1)], how]
+    yield ["whole", c, 0]
+
+
+def reentrant_sweep_cases(max_n, nested):
+    """Every list-like container kind (Pile, Columns, GridFlow, ListBox over either walker) of 2..max_n leaves, over
+    every selectable / unselectable pattern in which the focus leaf is selectable, x every focus position x every
+    single edit of the container (see _reaction_edits) made by the focus leaf from inside its keypress() x the key
+    that triggers it (either arrow key of the container's axis, or a character) x the leaf reporting that key handled
+    or unhandled.  nested: the same with the container as the focus child of a Pile next to a selectable leaf, the
+    edit addressed to the container or to that Pile.  History: the key, then a character."""
+    import itertools
+
+    for kind in ("cols", "pile", "grid", "lb-s", "lb-f"):
+        mode = "B" if kind.startswith("lb") else "F"
+        axis = ("left", "right") if kind in ("cols", "grid") else ("up", "down")
+        for n in range(2, max_n + 1):
+            for f in range(n):
+                for sels in itertools.product((1, 0), repeat=n):
+                    if not sels[f]:
+                        continue
+                    for depth in ((0, 1) if nested else (0,)):
+                        targets = ((0, n),) if depth == 0 else ((1, n), (0, 2))
+                        for c, tn in targets:
+                            for edit in _reaction_edits(tn, c):
+                                for key in (*axis, "q"):
+                                    for handled in (0, 1):
+                                        leaves = [{"k": "p", "sel": s, "keys": ["x"], "rows": 1} for s in sels]
+                                        leaves[f] = {
+                                            "k": "p",
+                                            "sel": 1,
+                                            "keys": ["x", key] if handled else ["x"],
+                                            "rows": 1,
+                                            "react": [edit],
+                                            "ron": [key],
+                                            "rn": 1,
+                                        }
+                                        tree = _listlike_spec(kind, leaves, f)
+                                        if depth:
+                                            sib = {"k": "p", "sel": 1, "keys": ["x"], "rows": 1}
+                                            tree = _listlike_spec("pile", [tree, sib], 0)
+                                            tmode = "F" if mode == "F" else "B"
+                                        else:
+                                            tmode = mode
+                                        yield {"tree": tree, "mode": tmode, "size": [12, 6], "ops": [["key", key], ["key", "x"]]}
+
+
+def _reentrant_leaf(tree):
+    for it in tree["c"]:
+        if it["n"].get("react"):
+            return tree, it["n"]
+        if it["n"].get("k", "p") != "p":
+            return _reentrant_leaf(it["n"])
+    return tree, None
+
+
+def _reentrant_classify(case):
+    inner, leaf = _reentrant_leaf(case["tree"])
+    edit = leaf["react"][0]
+    key = case["ops"][0][1]
+    return [
+        f"reentrant:{inner['k']}:n={len(inner['c'])}:levels={_levels(case['tree'])}",
+        f"reentrant:edit:{edit[0]}:key={'char' if key == 'q' else 'arrow'}:{'handled' if key in leaf['keys'] else 'unhandled'}",
+    ]
+
+
 def shard(ctx):
     depth = ctx.scale(3, 4)
     max_ops = ctx.scale(30, 60)
@@ -2103,6 +2320,13 @@ def shard(ctx):
     # the deterministic sweeps, smallest first (so that a short budget on a busy machine still covers the small
     # domains completely), then the random histories
     sweeps = [
+        (
+            reentrant_sweep_cases(ctx.scale(3, 4), ctx.scale(False, True)),
+            lambda case: True,  # every case edits the container while its keypress() is on the stack
+            _reentrant_classify,
+            "every single edit of a list-like container of <= %d leaves made by its focus leaf from inside keypress() "
+            "x trigger key x handled / unhandled" % ctx.scale(3, 4),
+        ),
         (
             binding_sweep_cases(),
             lambda case: True,  # every case has two command maps and an edit that changes one of them
@@ -2197,7 +2421,51 @@ def _k_mouse_below_short_column(sub, case, v):
     )
 
 
+def _via(v):
+    """the urwid call chain recorded in an exception violation's message (see Harness.guarded)"""
+    if " [via " not in v.message:
+        return []
+    return v.message.rsplit(" [via ", 1)[1].rstrip("]").split(">")
+
+
+def _k_reentrant_gridflow(sub, case, v):
+    """GridFlow.keypress writes the focus of its display widget - built before the key was handed down - back into
+    contents.focus also when a cell's keypress() has changed the contents meanwhile (the display widget then
+    describes cells that are gone or have moved).  Only: a keypress during which the focus leaf edited the tree,
+    and either the IndexError of that write-back or the GridFlow focus found on an unselectable cell afterwards."""
+    if REENTRANT_MARK not in v.message:
+        return False
+    if v.clause == "exception:IndexError@widget/grid_flow.py:focus_position":
+        return _via(v)[-3:] == ["keypress", "_set_focus_from_display_widget", "focus_position"]
+    return v.clause == "arrow-moves-to-selectable" and v.message.startswith("kind=grid ")
+
+
+def _k_reentrant_columns_left(sub, case, v):
+    """Columns.keypress walks 'left' from the focus index it read before the focus column's keypress(); when that
+    call removed columns the index lies beyond the end of contents."""
+    return (
+        v.clause == "exception:IndexError@widget/columns.py:keypress"
+        and REENTRANT_MARK in v.message
+        and "list index out of range" in v.message
+        and _via(v)[-1:] == ["keypress"]
+    )
+
+
+def _k_reentrant_pile(sub, case, v):
+    """Pile.keypress moves the focus with the index, item sizes and heights it computed before the focus item's
+    keypress(); when that call inserted or removed items they no longer fit the contents."""
+    return (
+        v.clause == "exception:IndexError@widget/pile.py:keypress"
+        and REENTRANT_MARK in v.message
+        and ("tuple index out of range" in v.message or "list index out of range" in v.message)
+        and _via(v)[-1:] == ["keypress"]
+    )
+
+
 KNOWN = {
+    "C08-reentrant-gridflow-stale-display": _k_reentrant_gridflow,
+    "C08-reentrant-columns-stale-index": _k_reentrant_columns_left,
+    "C08-reentrant-pile-stale-layout": _k_reentrant_pile,
     "C08-columns-mouse-below-short-column": _k_mouse_below_short_column,
     "C08-listbox-pending-focus-stale": _k_listbox_pending_stale,
     "C08-empty-gridflow-cursor": _k_empty_gridflow,
